@@ -3,7 +3,7 @@
 import json, os
 ROOT = os.path.dirname(os.path.dirname(os.path.abspath(__file__)))
 CLAIMED = {
- "C01": ("MC_Vamm + trace validation", "kmono / base / return-to-earlier-size invariants evaluated by TLC on every recorded vAMM state (direct-swap and engine-driven histories) and on the bounded vAMM model"),
+ "C01": ("bounded vAMM models + trace validation at the reduced scale + big-natural trace validation at the real scale (TraceBig.tla)", "kmono / base / return-to-earlier-size invariants evaluated by TLC on every recorded vAMM state (direct-swap and engine-driven histories), on the bounded vAMM model, and - with the big-natural arithmetic of BigNat.tla - on vAMM histories at 6 / 9 / 12 / 18 decimals with reserves up to the 128-bit range"),
  "C02": ("trace validation of engine histories", "sum of recorded position sizes = vAMM net size after every recorded transaction, failed ones included"),
  "C03": ("trace validation (balances + transfer paths)", "total supply conserved, frame condition on third parties, transfer paths restricted to sender/engine/fund/pool, liquidated trader receives nothing"),
  "C04": ("trace validation with TLA+ equity oracle", "payout of every recorded whole close = margin + realised PnL - funding computed by TLC from raw state; bad-debt closes rejected; insurance-fund decrease bounded by recorded prepaid bad debt"),
@@ -11,13 +11,13 @@ CLAIMED = {
  "C06": ("trace validation with TLA+ liquidation-ratio oracle", "liquidations succeed only when the specification's liquidation ratio (spot/TWAP, oracle override at 10% spread) <= maintenance; payouts of full and partial liquidations recomputed"),
  "C10": ("trace validation (frame condition)", "every other trader's stored position (all fields, existence) unchanged by every recorded transaction except the named target of Liquidate; queries leave the storage digest unchanged"),
  "C12": ("trace validation (fee transfers)", "fee transfers to fund/pool recomputed from notional x ratio for opens, reversals, closes, partial closes; no fee on deposit/withdraw/funding/liquidation"),
- "C15": ("trace validation with TLA+ band oracle", "per-block band recomputed by the specification from the previous block's snapshot; whole-vs-partial close decision recomputed"),
+ "C15": ("trace validation with TLA+ band oracle over ghost block-start reserves", "per-block band recomputed by the specification from the reserves recorded when the block began (ghost, not the stored snapshots); whole-vs-partial close decision recomputed; sub-second blocks, band-edge landings, closes with limits"),
  "C16": ("trace validation with ghost liquidation block", "restriction mode: ghost 'liquidated in this block' + stored block stamp decide must-fail / must-not-be-restricted"),
- "C17": ("trace validation (query then execute)", "quoted amount = executed amount, exact requested side, slippage limit iff, limit forwarded unchanged by the engine"),
+ "C17": ("trace validation (query then execute), also at the real scale (TraceBig.tla)", "quoted amount = executed amount, exact requested side (both also on production-scale limb-encoded histories), slippage limit iff, limit forwarded unchanged by the engine (limits placed at the vAMM's own quote +/- 1)"),
  "C18": ("trace validation (TWAP bounds)", "vAMM and price-feed TWAPs within the snapshot/round prices overlapping the window; one snapshot per block with final reserves; latest / n-back queries exact"),
  "C07": ("trace validation with TLA+ enabling condition", "Liquidate issued in a state where the specification's enabling condition holds (ratio below maintenance by the spec's own operators, vAMM open/registered/fillable/in band, fee ratio non-zero, fund ample) must succeed; failures matching a recorded known finding (F5, F6) are reported as KNOWN-FINDING"),
- "C08": ("fault enumeration + trace validation", "probe-based failure injected at every sub-message index of every engine operation kind (fault sweep) plus natural failures; TLC checks storage-digest equality on failure, no swallowed sub-failure, no temporary residue"),
- "C09": ("role matrix + trace validation", "every privileged execute variant x 8 sender kinds, before and after role transfers, executed on the real contracts; TLC checks ok => sender holds the role in the recorded pre-state, failure => digest unchanged"),
+ "C08": ("fault enumeration + trace validation + micro-step bounded models (SystemStep.tla over the small-step VM VmStep.tla)", "TLC visits every intermediate configuration of every transaction of the bounded model with a failure at every call index (invariants MicroInv / EndInv, refinement of the big-step VM); probe-based failure injected at every sub-message index of every engine operation kind (fault sweep) plus natural failures; TLC checks storage-digest equality on failure, no swallowed sub-failure, no temporary residue"),
+ "C09": ("role matrix + trace validation with a ghost role map", "every privileged execute variant x 8 sender kinds (address arguments ranging over role holders), before and after role transfers, on three deployments (incl. vAMMs without insurance fund), executed on the real contracts; TLC checks ok => sender holds the role in the GHOST role map (what the deployment's messages and the successful transfers since established, not the stored configuration), failure => digest unchanged"),
  "C11": ("trace validation with TLA+ funding oracle", "schedule, premium fraction (vAMM TWAP - oracle TWAP recomputed by the specification), next funding time, vault<->fund transfer, and charging/checkpoint on trade, withdraw, close, reversal"),
  "C13": ("twin executions + TLA+ equivalence predicate", "the same history executed in lock-step on a cw20 and a native deployment, the native call attaching exactly what the cw20 call pulled; TLC compares results, positions, vAMM state and per-party balance deltas (Twin.tla); divergences matching the recorded findings F3 / F11 are reported as KNOWN-FINDING"),
  "C14": ("gate matrix + trace validation", "paused x open x registered x operation matrix with live positions, shutdown from every subset of already-closed vAMMs, random registry histories with membership queries"),
